@@ -56,4 +56,7 @@ func gen(t *rapid.T) Prog {
 }
 
 func TestPropDutyDispatch(t *testing.T) { prog.Check(t, "C16", testName, gen, run) }
-func TestReplay(t *testing.T)           { prog.Replay(t, "C16", testName, run) }
+func TestReplay(t *testing.T) {
+	prog.Replay(t, "C16", testName, run)
+	prog.Replay(t, "C10", storeTest, runStore)
+}
